@@ -85,7 +85,36 @@ def jobs_for(tier, rnd):
             d = 'start = [C, Opt(C), /[1;~ \\n]*/]\nclass C { ' + body + ' }\nD = /\\d/\n' + ('ignore /[ \\n]+/\n' if ign else '')
             jobs.append((gid, d, (TLY[:80] + TLI) if ign else TLY, {'positions': [0, 1], 'fulls': [True], 'kind': 'plain', 'module_level': True, 'stratum': 'class-layouts'}))
             gid += 1
+    # classes with arbitrary bodies: 1-3 members, each any expression of the core language (depth <= 2), kept, omitted or
+    # a let member at random; a class may hold another; instances under repetition and option
+    d2 = [e for e in G.depth2() if G.well_formed(e, G.RULES_NULLABLE) and not any(x[0] in ('byte', 'bt') for x in _walk(e))]
+    nrand = 100 if tier == 'quick' else 3000
+    TR = G.texts('abc', 4, extra=('abab', 'aabb', 'ababa', 'baab', 'aaaa', 'abba'))
+    TRI = ['a b', ' ab', 'ab ', 'a  b a', ' a\nb', 'ab\n ab', 'a b a b', '  ', ' a a ']
+    for k in range(nrand):
+        def members(n, inner=None):
+            ms = []
+            for i in range(n):
+                e = rnd.choice(d2) if inner is None or i != n // 2 else ('ref', inner)
+                kind = rnd.choice(['f', 'f', 'f', 'pass', 'let'])
+                ms.append({'f': f'm{i}: ', 'pass': 'pass ', 'let': f'let l{i}: '}[kind] + G.render(e))
+            return '; '.join(ms)
+        two = rnd.random() < 0.4
+        body = 'class A { ' + members(rnd.randrange(1, 4), 'B' if two else None) + ' }\n'
+        if two:
+            body += 'class B { ' + members(rnd.randrange(1, 3)) + ' }\n'
+        ign = rnd.random() < 0.4
+        d = 'start = [A, Opt(A), /[abc \\n]*/]\n' + body + G.AUX['text'] + '\n' + ('ignore /[ \\n]+/\n' if ign else '')
+        jobs.append((gid, d, (TR[:120] + TRI) if ign else TR, {'positions': [0, 1], 'fulls': [True], 'kind': 'plain', 'module_level': True, 'stratum': 'random-class-bodies'}))
+        gid += 1
     return jobs
+
+
+def _walk(e):
+    yield e
+    for x in e[1:]:
+        if isinstance(x, tuple) and x and isinstance(x[0], str):
+            yield from _walk(x)
 
 
 TABLE_GRAMMARS = [
